@@ -138,7 +138,7 @@ def r3_choice_runs(ctx):
             labs |= sla.slice_operand(o)[0]
         ok |= ("field:" + NEXT) in labs
     ctx.ob("C08.R3", "next-into-current", ok, "advance_to_next_task moves next_task into current_task", loc=adv.loc())
-    c0 = prog.get(E + "Execution::run_to_completion::{closure#0}")
+    c0 = ctx.closure(E + "Execution::run_to_completion", ES + "schedule", "C08.R3")
     if c0 is not None:
         slc = Slicer(c0)
         somes = [(x, st) for x, st in c0.assigns() if st["rv"]["k"] == "aggr" and st["rv"].get("variant") == "Some"]
